@@ -203,7 +203,9 @@ func (r *ReadGroup) Get(t Tag) string {
 func (r *ReadGroup) Set(t Tag, value string) error {
 	switch t {
 	case idTag:
-		r.name = value
+		// Renaming goes through SetName so that the owning
+		// header's name table follows.
+		return r.SetName(value)
 	case centerTag:
 		r.center = value
 	case descriptionTag:
